@@ -5,7 +5,7 @@
    Partial: positive semi-definiteness of the five stationary kernels (Bochner's theorem) is not
    provable with the installed libraries; it is tested numerically as support only. *)
 From Coq Require Import Reals List ZArith Lra.
-From MellonV Require Import ALists AKernels AKExpr ACovFunc AListsFacts ADocumented ADistThm AKernelsThm APsdThm ASchurBridge APsdLimit ABochnerThm ABochnerFinal.
+From MellonV Require Import ALists AKernels AKExpr ACovFunc AListsFacts ADocumented ADistThm AKernelsThm APsdThm ASchurBridge APsdLimit ABochnerThm ABochnerFinal ARatQuadPsd.
 Import ListNotations.
 Open Scope R_scope.
 
@@ -191,6 +191,22 @@ Print Assumptions C05_expquad_gram_psd.
 Theorem C05_keval_psd_gaussian_linear : forall e, psd_shape e -> gaussian_linear_only e -> psd (keval e).
 Proof. exact keval_psd_gaussian_linear. Qed.
 Print Assumptions C05_keval_psd_gaussian_linear.
+
+(* the rational-quadratic kernel with alpha = 1 (the default of mellon.cov.RatQuad) and with every positive integer alpha:
+   1/u = lim_h lim_N sum_{k<=N} h exp(-k h u) is a limit of non-negative combinations of ExpQuad Gram entries
+   (thm/ARatQuadPsd.v); integer powers are Schur products *)
+Theorem C05_ratquad_default_gram_psd : forall ls, 0 < ls -> psd (base_k (BRatQuad 1) ls).
+Proof. exact psd_ratquad_one. Qed.
+Print Assumptions C05_ratquad_default_gram_psd.
+
+Theorem C05_ratquad_integer_alpha_gram_psd : forall n ls, 0 < ls -> psd (base_k (BRatQuad (INR (S n))) ls).
+Proof. exact psd_ratquad_nat. Qed.
+Print Assumptions C05_ratquad_integer_alpha_gram_psd.
+
+(* ... and every expression tree over Linear, ExpQuad and integer-alpha RatQuad kernels: no hypothesis left *)
+Theorem C05_keval_psd_elementary : forall e, psd_shape e -> elementary_only e -> psd (keval e).
+Proof. exact keval_psd_elementary. Qed.
+Print Assumptions C05_keval_psd_elementary.
 
 (* ---- non-vacuity of the hypotheses used above *)
 Example C05_nonvacuous :
